@@ -102,7 +102,11 @@ scrape_configs:
     action: hashmod
   - regex: __meta_kubernetes_pod_label_(.+)
     action: labelmap
+  - regex: tmp_(.+)
+    action: labeldrop
   metric_relabel_configs:
+  - regex: (__name__|le|job|instance|app|keep_.*)
+    action: labelkeep
   - source_labels: [__name__]
     regex: go_.*
     action: drop
@@ -140,6 +144,8 @@ remote_write:
   - source_labels: [__name__]
     regex: expensive_.*
     action: drop
+  - regex: internal_(.+)
+    action: labeldrop
   queue_config:
     capacity: 500
     max_shards: 20
@@ -533,6 +539,11 @@ func cmdCfgSync(args []string) error {
 		_ = w.apiPost("/api/v1/status/config", &shard.UpdateConfigRequest{RawContent: catalogueYAML}, nil)
 		// the coordinator has reloaded the edited configuration
 		cm := prom.NewConfigManager()
+		withExtra := len(done)%2 == 0
+		if withExtra {
+			// an administrator has stopped scraping (extra config, process-local) before the reload
+			_ = cm.UpdateExtraConfig(prom.ExtraConfig{StopScrapeReason: "maintenance"})
+		}
 		if err := cm.ReloadFromRaw([]byte(e.YAML)); err != nil {
 			cleanupDir(dir)
 			continue
@@ -552,8 +563,23 @@ func cmdCfgSync(args []string) error {
 			}
 		}
 		same := string(w.cfgm.ConfigInfo().RawContent) == e.YAML
-		_ = wr.Write(map[string]interface{}{"path": e.Path, "class": e.Class, "kind": e.Kind, "what": e.What,
-			"reqs": reqs, "treatedInSync": applied, "shardRunsCoordinatorConfig": same})
+		pushed := false
+		for _, r := range reqs {
+			pushed = pushed || r == "cfg"
+		}
+		// a second cycle: the shard that now holds the coordinator's content has to be found in sync
+		reqs1 := append([]string{}, reqs...)
+		reqs = reqs[:0]
+		_ = c.VerifRunOnce()
+		applied2, pushed2 := false, false
+		for _, r := range reqs {
+			applied2 = applied2 || r == "targets" || r == "extra"
+			pushed2 = pushed2 || r == "cfg"
+		}
+		same2 := string(w.cfgm.ConfigInfo().RawContent) == e.YAML
+		_ = wr.Write(map[string]interface{}{"path": e.Path, "class": e.Class, "kind": e.Kind, "what": e.What, "withExtraConfig": withExtra,
+			"reqs": reqs1, "treatedInSync": applied, "shardRunsCoordinatorConfig": same, "pushed": pushed,
+			"reqs2": append([]string{}, reqs...), "treatedInSync2": applied2, "pushedAgain": pushed2, "shardRunsCoordinatorConfig2": same2})
 		cleanupDir(dir)
 	}
 	return nil
